@@ -732,18 +732,23 @@ class Result:
 
 
 def explore(harness, *, max_paths=200000, timeout_ms=15000, seed=0, max_violations=12,
-            deadline=None, on_violation=None, prefixes=None):
+            deadline=None, on_violation=None, prefixes=None, stop_when_pending=None):
     """Depth-first exploration of `harness(ctx) -> list[Obl]`.
 
     Each returned obligation is checked against the final path condition.  Returns a Result.
     """
     res = Result()
     work = [list(p) for p in (prefixes if prefixes is not None else [[]])]
+    res.pending_prefixes = []
     while work:
         if res.paths >= max_paths or (deadline is not None and time.time() > deadline):
             res.truncated = True
             break
-        prefix = work.pop()
+        if stop_when_pending is not None and res.paths >= 1 and len(work) >= stop_when_pending:
+            res.pending_prefixes = [list(p) for p in work]     # handed to other workers (decision-tree split)
+            work = []
+            break
+        prefix = work.pop(0) if stop_when_pending is not None else work.pop()
         ctx = Ctx(prefix, timeout_ms=timeout_ms, seed=seed)
         Ctx.cur = ctx
         obls = None
